@@ -272,6 +272,14 @@ func (w *xwlWorld) emitLocked(ev string, kv ...interface{}) {
 	w.counts[ev]++
 }
 
+// unrealized: a scenario did not unfold as scripted. Not fatal: the recorded
+// run is still validated (a run that is not a behaviour of the specification
+// is a violation; a valid run that misses its scenario makes the check broken).
+func (w *xwlWorld) unrealized(format string, a ...interface{}) {
+	w.rep.Note("unrealized: "+format, a...)
+	w.rep.Count("unrealized", 1)
+}
+
 func (w *xwlWorld) fail(format string, a ...interface{}) {
 	w.mu.Lock()
 	if w.fatal == "" {
@@ -1363,13 +1371,17 @@ func xwlNodeRun(t *testing.T, rep *kit.Report, tr *kit.Tracer, run int, windows 
 		switch kind {
 		case "busy":
 			if !w.isParked(victim, "w1", k) {
-				t.Fatalf("harness: window %d: the action of member %d was not parked in its validation call", k, victim)
+				// (decided by the trace: if the recorded run is a behaviour of the
+				// specification the engine reports a dead scenario, not a violation)
+				w.unrealized("window %d: the action of member %d was not parked in its validation call", k, victim)
+				pending = ""
+			} else {
+				held = append(held, xwlProcKey{victim, "w1", k})
 			}
-			held = append(held, xwlProcKey{victim, "w1", k})
 		case "after-busy":
 			for _, h := range held {
 				if !w.isParked(h.m, h.w, h.k) || !w.entryOf(h.m, w1) {
-					t.Fatalf("harness: window %d: the parked action of member %d is gone", k, h.m)
+					w.unrealized("window %d: the parked action of member %d is gone", k, h.m)
 				}
 			}
 		}
@@ -1638,7 +1650,7 @@ func xwlSigningRun(t *testing.T, rep *kit.Report, tr *kit.Tracer, run int) {
 		rep.Eval(fmt.Sprintf("signing/%d", i), map[string]interface{}{"run": run, "window": k, "deaf": deaf, "failer": failer})
 	}
 	if w.count("SignEnd") == 0 {
-		t.Fatalf("harness: no signing loop returned")
+		w.unrealized("no signing loop returned")
 	}
 	rep.Count("events", tr.N())
 }
